@@ -58,6 +58,14 @@ AlphaSmall ==
           VAdd("o1", "v1", Cin, 0, "ok", "ok", "mismatch")}
     \cup {VRem("o1", "v1"), VRem("o2", "v1"), VExit("o1", "v1"), Liq("o1", Cin), React("o1", Cin), Fee("o1", "a")}
 
+(* attack configs: one representative of every validity class *)
+AlphaAttack ==
+    {OpAdd(1, "self"), OpAdd(5, "self"), OpAdd(5, "other")}
+    \cup {Good("o1", "v1", Cin), Good("o2", "v1", Cin), Good("o1", "v1", Cdup), Good("o1", "v1", C3), Good("o1", "v1", Cout),
+          VAdd("o1", "v1", Cin, 0, "bad", "ok", "ok"), VAdd("o1", "v1", Cin, 0, "ok", "bad", "ok"),
+          VAdd("o1", "v1", Cin, 0, "ok", "ok", "mismatch")}
+    \cup {VRem("o1", "v1"), VExit("o1", "v1"), VExit("o2", "v1"), Liq("o1", Cin), Liq("o2", Cin), React("o1", Cin)}
+
 (* crash sub-spec: events with out-of-transaction side effects and the ones that interleave with them *)
 AlphaCrash ==
     {OpAdd(1, "self"), OpAdd(5, "other")}
@@ -72,4 +80,5 @@ SetupsCrashQuick == {SetupIn}
 SetupsEmpty == {SetupNone}
 SetupsCover == {SetupIn, Setup234}
 SetupsAttack == {SetupNone, Setup234}
+SetupsAttackAll == {SetupAll}
 =============================================================================
